@@ -21,6 +21,7 @@ REGISTRY = {
     "C06": "objectstore",
     "C07": "objectstore",
     "C08": "indexdiff",
+    "C09": "indexcheckout",
     "C10": "checkoutobj",
     "C11": "objectstore",
     "C12": "objectstore",
